@@ -2149,7 +2149,11 @@ def preprocess_file(
             out_line = ""
             for match in FRegex.WORD.finditer(line):
                 if match.group(0) in defs:
-                    out_line += line[i0 : match.start(0)] + defs[match.group(0)]
+                    value = defs[match.group(0)]
+                    # Function-like macros are stored as (arguments, body)
+                    if isinstance(value, tuple):
+                        value = value[1]
+                    out_line += line[i0 : match.start(0)] + value
                 else:
                     out_line += line[i0 : match.start(0)] + "False"
                 i0 = match.end(0)
